@@ -210,6 +210,7 @@ def run_c09(params, prefix):
     store = W.Store(base_store() if kind == 'snapshot' else pre_state(tree, params.get('nsnap', 1)))
     target = c['sc'].path / f't{c["n"]}'
     holder = {}
+    fired = []
     W.set_clock()
     W.set_random('c09x')
 
@@ -218,6 +219,15 @@ def run_c09(params, prefix):
         seen = {'n': 0}
 
         def fault_fn(k, name, idx):
+            if fkind == 'download-for-good':
+                # the fnth object asked for with download() cannot be had, however often it is asked for
+                if k == 'download':
+                    if name not in seen.setdefault('names', []):
+                        seen['names'].append(name)
+                    if seen['names'].index(name) == fnth - 1:
+                        fired.append(name)
+                        raise Injected(f'download of object #{fnth} (every attempt)')
+                return
             if k == fkind:
                 seen['n'] += 1
                 if seen['n'] == fnth:
@@ -236,7 +246,6 @@ def run_c09(params, prefix):
                 res = await repo.restore(path=target, rate_limit=params.get('rate'))
         return res
 
-    fired = []
     with failing_source(fault, d, target, fired):
         x = dsched.run_one(lambda loop, s: go(), prefix, horizon=params.get('horizon', 6000),
                            fp_hook=store.fp, collect_states=True, want_env=(be == 'async'))
@@ -279,7 +288,21 @@ def run_c09(params, prefix):
         if fault is None or not isinstance(x.exc, (Injected, InjectedOS)):
             bad('exception', exc=ename, msg=repr(x.exc)[:300])
     else:
-        if fault is not None and fault[0] == 'target-write':
+        if fault is not None and fault[0] == 'download-for-good':
+            # an object that cannot be downloaded is not an object that does not exist: a restore that returns normally
+            # must still have written the newest version of everything
+            want = {W.restore_path(target, str(d / k)): v for k, v in TREES[tree].items()}
+            got = {p_: v[0] for p_, v in W.read_tree(target).items()}
+            outcome = ('OK-after-download-fault', bool(fired), got == want)
+            if fired and got != want:
+                bad('fault-swallowed', detail='restore returned normally although an object could not be downloaded; content differs')
+        elif fault is not None and str(fault[0]).startswith('source-') and kind == 'snapshot':
+            # the read may have been retried: fine if what was stored is exactly the source
+            problems = check_manifest(repo, store, x.result, d, tree)
+            outcome = ('OK-after-source-fault', tuple(problems))
+            if problems:
+                bad('fault-swallowed', problems=problems[:5])
+        elif fault is not None and fault[0] == 'target-write':
             # a write into the target failed (if it was reached): the restore must not report success with wrong content
             want = {W.restore_path(target, str(d / k)): v for k, v in TREES[tree].items()}
             got = {p_: v[0] for p_, v in W.read_tree(target).items()}
@@ -368,6 +391,9 @@ def harnesses(t):
                 hs.append({'kind': 'snapshot', 'tree': 'snapA', 'N': N, 'be': be, 'fault': ('source-read', 1)})
                 hs.append({'kind': 'snapshot', 'tree': 'snapA', 'N': N, 'be': be, 'fault': ('source-read', 2)})
             hs.append({'kind': 'restore', 'tree': 'restB', 'N': N, 'be': be, 'fault': ('download_stream', 2)})
+            # a snapshot object that cannot be downloaded (restS holds several snapshots of one path: the newest must win)
+            hs.append({'kind': 'restore', 'tree': 'restS', 'N': N, 'be': be, 'nsnap': 3, 'fault': ('download-for-good', 1)})
+            hs.append({'kind': 'restore', 'tree': 'restS', 'N': N, 'be': be, 'nsnap': 3, 'fault': ('download-for-good', 3)})
             if N == 1:
                 # every upload worker has failed while the producer still has more chunks than the queue holds
                 hs.append({'kind': 'snapshot', 'tree': 'snapC', 'N': 1, 'be': be, 'fault': ('upload_stream', 1), 'horizon': 12000})
